@@ -388,9 +388,97 @@ def shard(dtf, N, tier, pushes_list=None):
     return tally
 
 
+def variant_shard(dtf, N):
+    """(1) non-inclusive records: the valid time range is [0, dt*(N-1)] +- tol although duration = dt*N;
+    (2) integer storage: scalar-time and tensor-time selects agree with each other and with the reference"""
+    tally = Tally()
+    dt = F(dtf).limit_denominator(64)
+    E = 2
+    # ---- (1) non-inclusive record
+    for tol in (F(0), dt / 4):
+        for pushes in (N, N + 1):
+            mod = inferno.Module()
+            RecordTensor.create(mod, "rec", float(dt), max(float(dt) * N - 1e-9, 0.0), torch.zeros(E), inclusive=False)
+            rt = mod.rec
+            if rt.recordsz != N:
+                raise RuntimeError(f"harness: record size {rt.recordsz} != {N}")
+            for k in range(pushes):
+                rt.push(torch.tensor([float(k + 1), float(2 * k + 1)]))
+            limit = dt * (N - 1)
+            for t in (limit, limit + tol, limit + tol + dt / 4, dt * N, dt * N + tol, limit + dt / 2):
+                valid = t <= limit + tol
+                for mode in ("scalar", "tensor"):
+                    for op in ("select", "insert"):
+                        tally.add("evaluations")
+                        targ = float(t) if mode == "scalar" else torch.full((E,), float(t))
+                        case = {"op": op, "record": "non-inclusive", "dt": float(dt), "N": N, "tol": float(tol), "time": float(t), "mode": mode, "pushes": pushes}
+                        before = rt.value.detach().clone()
+                        try:
+                            if op == "select":
+                                rt.select(targ, fn.interp_previous, tolerance=float(tol))
+                            else:
+                                rt.insert(torch.tensor([7.0, 9.0]), targ, fn.extrap_neighbors, tolerance=float(tol), inplace=False)
+                            err = None
+                        except ValueError as ex:
+                            err = ex
+                        except Exception as ex:
+                            tally.violation(f"variant:exception:{op}:{type(ex).__name__}", case, repr(ex))
+                            continue
+                        if valid and err is not None:
+                            tally.violation(f"{op}:{mode}:rejected-valid:non-inclusive", case, f"time {float(t)} <= dt*(N-1)+tol rejected: {err}")
+                        if not valid and err is None:
+                            tally.violation(f"{op}:{mode}:accepted-out-of-range:non-inclusive", case, f"time {float(t)} > dt*(N-1)+tol = {float(limit + tol)} accepted "
+                                            f"(record duration {float(dt * N)})")
+                        if not valid and not torch.equal(before, rt.value.detach()) and op == "insert":
+                            tally.violation(f"insert:{mode}:out-of-range-wrote:non-inclusive", case, "an out-of-range insert modified storage")
+                        rt.value = before
+                        tally.mark("nontrivial", ("noninc", float(dt), N, float(tol), float(t), mode, op))
+    # ---- (2) integer storage
+    for pushes in range(N, 2 * N):
+        mod = inferno.Module()
+        RecordTensor.create(mod, "rec", float(dt), max(float(dt) * (N - 1) - 1e-9, 0.0), torch.zeros(E, dtype=torch.int64), inclusive=True)
+        rt = mod.rec
+        M = [[0, 0] for _ in range(N)]
+        for k in range(pushes):
+            vals = [8 * (k + 1), 16 * (k + 1) + 4]
+            rt.push(torch.tensor(vals))
+            M[0] = vals
+            M = [M[(j - 1) % N] for j in range(N)]
+        tol = F(0)
+        for iname in ("nearest", "previous", "next", "linear", "expdecay"):
+            ifn, ikw = INTERPS[iname]
+            for t in time_grid(dt, N, tol):
+                loc = locate(t, dt, tol, N)
+                if loc[0] == "invalid":
+                    continue
+                tally.add("evaluations")
+                case = {"op": "select", "record": "int64 storage", "dt": float(dt), "N": N, "pushes": pushes, "time": float(t), "interp": iname}
+                try:
+                    a = rt.select(float(t), ifn, tolerance=0.0, interp_kwargs=ikw).to(torch.float64).tolist()
+                    b = rt.select(torch.full((E,), float(t)), ifn, tolerance=0.0, interp_kwargs=ikw).to(torch.float64).tolist()
+                except Exception as ex:
+                    tally.violation(f"variant:int-storage:exception:{type(ex).__name__}", case, repr(ex))
+                    continue
+                if loc[0] == "exact":
+                    exp = [float(v) for v in M[(1 + loc[1]) % N]]
+                else:
+                    _, c, f_, el = loc
+                    exp = [ref_interp(iname, float(M[(1 + c) % N][e]), float(M[(1 + f_) % N][e]), float(el), float(dt)) for e in range(E)]
+                if any(abs(x - y) > 1e-5 * max(1, abs(y)) for x, y in zip(a, b)):
+                    tally.violation(f"select:tensor!=scalar:int-storage:{iname}", case, f"scalar-time {a} vs tensor-time {b}", b, a)
+                elif any(abs(x - y) > 1e-5 * max(1, abs(y)) for x, y in zip(b, exp)):
+                    tally.violation(f"select:int-storage:{iname}", case, f"select {b}, reference {exp}", exp, b)
+                tally.mark("nontrivial", ("int", float(dt), N, pushes, float(t), iname))
+    tally.sample({"part": "variants", "dt": float(dt), "N": N})
+    return tally
+
+
 def run(rep):
     quick = rep.tier == "quick"
     jobs = []
+    for dtf in (1.0, 0.5):
+        for N in (2, 3, 4):
+            jobs.append((variant_shard, (dtf, N)))
     for dtf in ((1.0, 0.5) if quick else (1.0, 0.5, 1.3)):
         for N in ((1, 2, 3, 4) if quick else (1, 2, 3, 4, 5)):
             for pushes in range(N, 2 * N):
